@@ -35,5 +35,5 @@ CHECK = {
         "hangs are only detected as 'did not return in 60 s' and reported as inconclusive",
     ],
     "required_classes": {"quick": ["talk:len<=2", "talk:answered", "content:len<=2", "pong:processed", "nodes:processed", "offerresp:processed", "stream:queued",
-                                   "validate:accepted", "validate:key-len<=1", "put:ok", "get:key-len<=1", "wire:utp-packet", "wire:portal-packet", "late-replies-after-lookup-ended", "enr-or-nodes-request-answered-from-script", "structured-validator-input:header-proof", "structured-validator-input:history-content", "structured-validator-input:state-proof", "net:history", "net:beacon", "net:state"]},
+                                   "validate:accepted", "validate:key-len<=1", "put:ok", "get:key-len<=1", "wire:utp-packet", "wire:portal-packet", "late-replies-after-lookup-ended", "enr-or-nodes-request-answered-from-script", "ephemeral:stored-then-asked", "structured-validator-input:header-proof", "structured-validator-input:history-content", "structured-validator-input:state-proof", "net:history", "net:beacon", "net:state"]},
 }
